@@ -763,6 +763,9 @@ class ExcelCompiler:
 
             self.range_todos.append(str(excel_data.address))
             new_nodes = build_range(excel_data) + ref_nodes
+            if ref_nodes:
+                # the reference gets its value with the range it stands for
+                self.range_todos.append(str(address))
         else:
             new_nodes = build_cell(excel_data)
 
